@@ -10,8 +10,13 @@
 //!   step  : ["mirror",bool] | ["fill",k] | ["slice",start,len,k] | ["pce500_map"] | ["rom_window",len,k]
 //!           | ["ro",[[s,e]..]] | ["card",size,k] | ["slot",bool] | ["ram_ovl",start,size,name]
 //!           | ["rom_ovl",start,size,k,name]
+//!           | ["card_raw",len,k]  load_memory_card with an image of ANY length; the Result is ignored (the
+//!             caller's "handle the error and carry on")   | ["remove_ovl",name]
+//!           | ["copy_ext",len,k]  copy_external_from(len bytes); Result ignored
 //!   op    : ["st",addr,bits,value,[probe..]] | ["ld",addr,bits,[probe..]]                 (direct + cpu*)
 //!           | ["x",code_addr,[byte..],{reg:value..},ret_reg|null,[probe..]]               (cpu only)
+//!           | ["cfg",step,[probe..]]   a configuration step in the middle of a history (ret 0)
+//!           | ["imem"]   bulk view: result [0, the 256 bytes of MemoryImage::internal_slice()] (no probes)
 //!           (*in cpu mode "st"/"ld" go straight to rt.memory: used for set-up and observation)
 //! response: {"ok":true,"results":[{"ops":[[ret,[sentinel values..,probe values..]]..]} | {"error":..}]}
 //!   ret = loaded value / register value, -1 when the API returned None, -2 when step() returned Err.
@@ -106,6 +111,24 @@ fn apply_step(t: &mut Target, step: &Value) -> Result<(), String> {
                 Target::Cpu(rt) => rt.load_memory_card(&data).map_err(|e| e.to_string())?,
             }
         }
+        "card_raw" => {
+            let data = pat_vec(u(&a[2]) as u32, 0x40000, u(&a[1]) as usize);
+            let _ = match t {
+                Target::Direct(m) => m.load_memory_card(&data),
+                Target::Cpu(rt) => rt.load_memory_card(&data),
+            };
+        }
+        "remove_ovl" => {
+            let nm = a[1].as_str().unwrap_or("");
+            match t {
+                Target::Direct(m) => m.remove_overlay(nm),
+                Target::Cpu(rt) => rt.remove_overlay(nm),
+            }
+        }
+        "copy_ext" => {
+            let data = pat_vec(u(&a[2]) as u32, 0, u(&a[1]) as usize);
+            let _ = t.mem().copy_external_from(&data);
+        }
         "slot" => t
             .mem()
             .set_memory_card_slot_present(a[1].as_bool().unwrap_or(true)),
@@ -183,6 +206,17 @@ fn run_case(case: &Value) -> Value {
             "ld" => {
                 let r = t.mem().load(u(&a[1]) as u32, u(&a[2]) as u8);
                 (r.map(|v| v as i64).unwrap_or(-1), a.get(3))
+            }
+            "imem" => {
+                let vals: Vec<i64> = t.mem().internal_slice().iter().map(|b| *b as i64).collect();
+                results.push(json!([0, vals]));
+                continue;
+            }
+            "cfg" => {
+                if let Err(e) = apply_step(&mut t, &a[1]) {
+                    return json!({"error": format!("cfg op: {e}")});
+                }
+                (0, a.get(2))
             }
             "x" => match &mut t {
                 Target::Cpu(rt) => {
